@@ -11,7 +11,7 @@ from vfw.model import links as L
 from vfw.model import stencil as M
 
 PROPERTY = "C05"
-SIZES = {"quick": 2400, "thorough": 100000}
+SIZES = {"quick": 4800, "thorough": 100000}
 RULE = (
     "Hypothesis draws a random reciprocal link table over 2-6 faces and axes X, Y (partial matching of edge slots, self-links "
     "included), face size N 2-4, asymmetric widths 0..min(3,N) per side and axis (one axis optionally omitted), rule and "
@@ -60,6 +60,7 @@ def strategy_impl(draw, tier):
         "via_2d": draw(st.booleans()),
         "order_v": draw(st.one_of(st.none(), gen.permutations_of(labels))),   # the partner may be stored in another dimension order
         "carry_coords": draw(st.booleans()),   # the inputs carry the dataset's coordinates (face labels included) or none
+        "drop_unlinked": draw(st.booleans()),   # a face without any link is listed with an empty entry, or not listed at all
     }
 
 
@@ -130,8 +131,11 @@ def make_grid(case):
     kw = {}
     if case["bsrc"] == "grid":
         kw = {"boundary": dict(case["bnd"]), "fill_value": dict(case["fill"])}
+    tab = case["table"]
+    if case.get("drop_unlinked"):
+        tab = {f: per for f, per in tab.items() if any(l is not None for sides in per.values() for l in sides)}
     return Grid(ds, coords={"X": {"center": "xc", "left": "xl"}, "Y": {"center": "yc", "left": "yl"}},
-                face_connections=gen.table_to_xgcm(case["table"], face_order=case.get("face_order"), reverse_axes=case.get("reverse_axes", False), flag_style=case.get("flag_style", "python")),
+                face_connections=gen.table_to_xgcm(tab, face_order=case.get("face_order"), reverse_axes=case.get("reverse_axes", False), flag_style=case.get("flag_style", "python")),
                 autoparse_metadata=False, periodic=False, **kw)
 
 
@@ -295,4 +299,6 @@ def check(case, ctx):
         classes.append("symmetry-checked")
     if via2d:
         classes.append("via-diff_2d_vector")
+    if case.get("drop_unlinked") and any(all(l is None for sides in per.values() for l in sides) for per in case["table"].values()):
+        classes.append("unlinked-face-not-listed")
     return {"nontrivial": bool(crossed > 0 and nonconst), "classes": classes}
